@@ -310,6 +310,45 @@ pub fn run_pub(t: &Templates, seed: u64, scn: &Value) -> Value {
             blob.extend_from_slice(&r.bytes(4));
             s = Base64::encode_to_string(&blob).unwrap();
         }
+        "cs_pattern" => {
+            // structured changes of the 4 checksum bytes: the same bit flipped in two bytes, two bytes
+            // swapped, reversed, rotated, all complemented, two / three bits flipped anywhere
+            let mut blob = Base64::decode_to_vec(&spec, None).unwrap();
+            let n = ju64(scn, "n") as usize;
+            let cs = &mut blob[32..36];
+            let orig = [cs[0], cs[1], cs[2], cs[3]];
+            match n {
+                0..=47 => {
+                    let pairs = [(0, 1), (0, 2), (0, 3), (1, 2), (1, 3), (2, 3)];
+                    let (a, b) = pairs[n / 8];
+                    cs[a] ^= 1 << (n % 8);
+                    cs[b] ^= 1 << (n % 8);
+                }
+                48..=53 => {
+                    let pairs = [(0, 1), (0, 2), (0, 3), (1, 2), (1, 3), (2, 3)];
+                    let (a, b) = pairs[n - 48];
+                    cs.swap(a, b);
+                }
+                54 => cs.reverse(),
+                55 => cs.rotate_left(1),
+                56 => cs.rotate_left(2),
+                57 => {
+                    for x in cs.iter_mut() {
+                        *x = !*x;
+                    }
+                }
+                _ => {
+                    for _ in 0..(2 + n % 3) {
+                        let i = r.below(32) as usize;
+                        cs[i / 8] ^= 1 << (i % 8);
+                    }
+                }
+            }
+            if [cs[0], cs[1], cs[2], cs[3]] == orig {
+                cs[0] ^= 0x10; // the pattern did not change this particular checksum: change it anyway
+            }
+            s = Base64::encode_to_string(&blob).unwrap();
+        }
         "short" => {
             s = Base64::encode_to_string(&pk[..ju64(scn, "n") as usize % 33]).unwrap();
         }
